@@ -141,6 +141,11 @@ def generate(rng, hostile=False, regimes=("lf", "crlf", "cr", "mixed"), max_file
                     holders = [t for t, p in ln if p is not None and raws[p] != bare_raw and bare_text and bare_text in t]
                     if holders and all(raws[p] != bare_raw for _t, p in ln if p is not None) and rng.random() < 0.6:
                         ln.append(("(pip install demo==%s)" % bare_text, None))          # unplaced: looks like an occurrence, is not one
+            for ln in lines:
+                # the text of an occurrence once more, further right on its line: a pattern has one occurrence per line (the left-most), the echo is surrounding text
+                placed = [t for t, p in ln if p is not None]
+                if placed and rng.random() < 0.15 and not any(p is not None and (raws[p].startswith("^") or raws[p].endswith("$")) for _t, p in ln):
+                    ln.append(("(see also: %s)" % rng.choice(placed), None))
             out_lines = []
             occ = []
             for li, ln in enumerate(lines):
